@@ -426,6 +426,9 @@ class Logbook(list):
         return super(self.__class__, self).pop(index)
 
     def __txt__(self, startindex):
+        if len(self) == 0:
+            return []
+
         columns = self.header
         if not columns:
             columns = sorted(self[0].keys()) + sorted(self.chapters.keys())
